@@ -166,6 +166,9 @@ def _run_reserved(stmts, env, alias):
       return _eval_reserved(st.value, env, alias)
     elif isinstance(st, ast.Assign) and isinstance(st.targets[0], ast.Name) and astu.src(st.value).startswith('self.reservations'):
       alias.add(st.targets[0].id)
+    elif isinstance(st, ast.Assign) and all(isinstance(t_, ast.Name) for t_ in st.targets) and isinstance(st.value, ast.Constant) and \
+        not any(isinstance(n_, ast.Name) and n_.id in {t_.id for t_ in st.targets} and isinstance(n_.ctx, ast.Load) for s2 in stmts for n_ in ast.walk(s2)):
+      continue   # a constant bound to a name nobody reads
     else:
       raise AnalysisError('name_reserved: statement `%s` is outside the analysable fragment' % astu.short(st))
   return None
